@@ -209,7 +209,9 @@ CLAIMS['C11']['text'] = CLAIMS['C11']['text'].replace(
     'is not held, a stream object exists, and there is credit or the TSN is below the highest TSN received; C11_zero_window_admission - at zero credit only chunks serially below the highest '
     'TSN received are stored. Executable predicates on the real association: a_rwnd of every SACK and the credit after every op against a walk of the real structures, window and zero-window '
     'rule per stored chunk, held-bytes delta per op, bytes bound buffer + maxTSNOffset x largest chunk, full buffer at the drained marker. '
-    'NOT proved: the global bytes bound (C11_bytes_bound - trace predicate only). KNOWN FINDING D13 (replayed every run): a stream reset by the peer is deleted from the table while its '
+    'C11_bytes_bound - for any op list whose DATA chunks carry at most M user bytes each, the registered streams never hold more than buffer + maxTSNOffset*M user bytes '
+    '(potential argument over the unset slots of the receive queue, Proofs/RecvQ/Unset.lean; side conditions buffer + 40000*M < 2^32 and < 2^63 bytes in total), hence '
+    'C11_credit_formula_bounded without a separate no-wrap hypothesis. KNOWN FINDING D13 (replayed every run): a stream reset by the peer is deleted from the table while its '
     'unread bytes are still held, so they are not counted - the credit formula is over registered streams.')
 CLAIMS['C11']['note'] += RECV_NOTE
 CLAIMS['C19']['text'] = CLAIMS['C19']['text'].replace(
